@@ -669,3 +669,30 @@ package iavl
 //@   lemma [stackinv-desc] err == nil && old(topInner) && !t.ascending ==> all(*t.delayedNodes, e, e.delayed && (e.node != nil ==> allocated(e.node) && valid(e.node) && bstT(view(e.node))))
 //@   ensures [stackinv] err == nil ==> all(*t.delayedNodes, e, e.delayed && (e.node != nil ==> allocated(e.node) && valid(e.node) && bstT(view(e.node))))
 //@   modifies *
+
+// ---------------------------------------------------------------- nodedb.go: orphan walk (C04/C12): the per-node decision
+//
+// Orphans of prevVersion are the nodes of its tree that are not nodes of
+// curVersion's tree; two stored nodes are the same node exactly when their
+// hashes are equal (the hash covers version, key/value or both child hashes).
+// The walk hands a node of the previous tree to the deleter `fn` only if it is
+// NOT the aligned candidate of the current tree, skips a previous subtree only
+// if it IS, and takes as candidates of the current tree exactly the nodes not
+// younger than prevVersion (younger nodes cannot occur in the previous tree).
+//@ func (*NodeIterator).Next(iter, isSkipped)
+//@   summary
+//@ func NewNodeIterator(rootKey, ndb) (it, err)
+//@   summary
+//@ func (*rootkeyCache).getRootKey(rkc, ndb, version) (key, err)
+//@   summary
+
+//@ func (*nodeDB).traverseOrphansWithRootkeyCache(ndb, cache, prevVersion, curVersion, fn) (err)
+//@   props C04 C12
+//@   nosafety
+//@   requires ndb != nil && cache != nil
+//@   callsite NodeIterator).Next@1 [candidate-old] arg0 == curIter && arg1 && node.nodeKey.version <= prevVersion
+//@   callsite NodeIterator).Next@2 [candidate-young] arg0 == curIter && !arg1 && node.nodeKey.version > prevVersion
+//@   callsite NodeIterator).Next@3 [skip-only-shared] arg0 == prevIter && arg1 && orgNode != nil && ord(pNode.hash) == ord(orgNode.hash)
+//@   callsite param:fn [orphan-not-shared] arg0 == pNode && (orgNode == nil || ord(pNode.hash) != ord(orgNode.hash))
+//@   callsite NodeIterator).Next@4 [descend] arg0 == prevIter && !arg1
+//@   modifies *
